@@ -53,12 +53,33 @@ impl RecordsBounds {
         Self::new(Self::namespace_start(&ns), Self::namespace_end(&ns))
     }
 
-    pub fn from_start(ns: &NamespaceId, end: Bound<RecordsIdOwned>) -> Self {
-        Self::new(Self::namespace_start(ns), end)
-    }
-
-    pub fn to_end(ns: &NamespaceId, start: Bound<RecordsIdOwned>) -> Self {
-        Self::new(start, Self::namespace_end(ns))
+    /// Bounds for the part of the half-open interval `[start, end)` that lies in the namespace.
+    ///
+    /// `None` stands for the start and the end of the namespace. The interval ends may lie in
+    /// another namespace (they are chosen by the remote peer); the returned bounds never reach
+    /// outside of `ns`.
+    pub fn clamped(
+        ns: &NamespaceId,
+        start: Option<RecordsIdOwned>,
+        end: Option<RecordsIdOwned>,
+    ) -> Self {
+        let ns_bytes = ns.to_bytes();
+        let starts_after = matches!(&start, Some(id) if id.0 > ns_bytes);
+        let ends_before = matches!(&end, Some(id) if id.0 < ns_bytes);
+        if starts_after || ends_before {
+            // nothing of the interval lies in the namespace
+            let first = (ns_bytes, [0u8; 32], Bytes::new());
+            return Self::new(Bound::Included(first.clone()), Bound::Excluded(first));
+        }
+        let start = match start {
+            Some(id) if id.0 == ns_bytes => Bound::Included(id),
+            _ => Self::namespace_start(ns),
+        };
+        let end = match end {
+            Some(id) if id.0 == ns_bytes => Bound::Excluded(id),
+            _ => Self::namespace_end(ns),
+        };
+        Self::new(start, end)
     }
 
     pub fn as_ref(&self) -> (Bound<RecordsId<'_>>, Bound<RecordsId<'_>>) {
